@@ -99,7 +99,9 @@ def build_dataclass(term, reg: Registry):
     if gparams:
         bases = bases + (typing.Generic[tuple(concretize_type(["tvar", p], reg) for p in gparams)],)
 
-    pyname = reg._pyname(name)
+    # "pyname": the Python __name__ / __qualname__ of the class when it must differ from the (unique) term name -- two classes
+    # with ONE qualified short name living in different modules of the universe
+    pyname = get_opt(cfg, "pyname") or reg._pyname(name)
     ann: dict[str, Any] = {}
     dmod = get_opt(cfg, "module")
     ns: dict[str, Any] = {"__module__": reg.submodule(dmod).__name__ if dmod else reg.modname, "__qualname__": pyname}
@@ -195,7 +197,7 @@ def build_dataclass(term, reg: Registry):
         elif k == "classvars":
             for cv, val in o[1]:
                 ns[cv] = concretize_value(val, reg)
-        elif k in ("mixin", "bases", "redeclared", "sorted_idx", "discr_field", "hooks", "slots", "frozen", "no_config", "generic_params", "module", "extras"):
+        elif k in ("mixin", "bases", "redeclared", "sorted_idx", "discr_field", "hooks", "slots", "frozen", "no_config", "generic_params", "module", "extras", "pyname"):
             pass
         else:
             raise BridgeError(f"unknown cfg option {k}")
@@ -207,7 +209,7 @@ def build_dataclass(term, reg: Registry):
         from harness.hooks import add_hooks
         add_hooks(ns, name, hooks, reg)
 
-    if gparams:
+    if gparams or any(not isinstance(b, type) for b in bases):      # a base such as Box[int] needs MRO entry resolution
         import types as _types
         cls = _types.new_class(pyname, bases, {}, lambda n: n.update(ns))
     else:
